@@ -20,6 +20,7 @@ package crashkit
 
 import (
 	"bufio"
+	"context"
 	"fmt"
 	"os"
 	"os/exec"
@@ -29,6 +30,7 @@ import (
 	"strconv"
 	"strings"
 	"syscall"
+	"time"
 )
 
 // MarkPath is the path probed by Mark; it delimits the window in the trace.
@@ -286,4 +288,50 @@ func (c Call) RetInt() int {
 		return -1
 	}
 	return n
+}
+
+// RunDelayed runs the child under `strace -f` with a delay of delayUs
+// microseconds injected at the ENTRY of the when-th call of the named system
+// call on every thread (strace counts per thread), and returns the child's
+// standard output and exit status (-1: killed by a signal); timedOut reports
+// that the run exceeded limit and was killed.
+func RunDelayed(c Cmd, name string, when, delayUs int, limit time.Duration) (out []byte, status int, timedOut bool, err error) {
+	names := name
+	switch name {
+	case "renameat":
+		names = "rename,renameat,renameat2"
+	case "fchmod":
+		names = "fchmod,fchmodat,chmod"
+	}
+	args := []string{"-f", "-qq", "-o", "/dev/null", "-e", "trace=" + names,
+		"-e", fmt.Sprintf("inject=%s:delay_enter=%d:when=%d", names, delayUs, when), c.Path}
+	args = append(args, c.Args...)
+	ctx, cancel := context.WithTimeout(context.Background(), limit)
+	defer cancel()
+	cmd := exec.CommandContext(ctx, "strace", args...)
+	cmd.Env = c.Env
+	cmd.Dir = c.Dir
+	cmd.SysProcAttr = &syscall.SysProcAttr{Setpgid: true}
+	cmd.Cancel = func() error { return syscall.Kill(-cmd.Process.Pid, syscall.SIGKILL) }
+	out, err = cmd.Output()
+	if ctx.Err() != nil {
+		return out, -1, true, nil
+	}
+	if err != nil {
+		if ee, ok := err.(*exec.ExitError); ok {
+			return out, exitStatus(ee), false, nil
+		}
+		return nil, 0, false, err
+	}
+	return out, 0, false, nil
+}
+
+func exitStatus(ee *exec.ExitError) int {
+	if ws, ok := ee.Sys().(syscall.WaitStatus); ok {
+		if ws.Signaled() {
+			return -1
+		}
+		return ws.ExitStatus()
+	}
+	return ee.ExitCode()
 }
